@@ -56,10 +56,11 @@ class Node:
     def macros(self):
         """All macro names on the expansion chain (innermost first)."""
         mc = self.d.get("mc")
-        if mc:
-            return list(mc)
-        m = self.d.get("m")
-        return [m] if m else []
+        out = list(mc) if mc else ([self.d["m"]] if self.d.get("m") else [])
+        mm = self.d.get("mmacro")
+        if mm and mm not in out:
+            out.append(mm)
+        return out
 
     @property
     def callee(self):
